@@ -980,7 +980,7 @@ func (e *Engine) execBlock(fn *ssa.Function, s *St) ([]succ, []Out) {
 					return []succ{{st, nil}}, []Out{{faulted, true, constBytes("division by zero")}}
 				}
 			}
-			s.env[in] = binop(in.Op, e.get(s, in.X), e.get(s, in.Y))
+			s.env[in] = e.wrapNative(in.Type(), in.Op, binop(in.Op, e.get(s, in.X), e.get(s, in.Y)))
 		case *ssa.MakeMap:
 			s.env[in] = MapV{e.alloc(s.State, MapObj{})}
 		case *ssa.MapUpdate:
@@ -1044,7 +1044,7 @@ func (e *Engine) execBlock(fn *ssa.Function, s *St) ([]succ, []Out) {
 		case *ssa.ChangeType:
 			s.env[in] = e.get(s, in.X)
 		case *ssa.Convert:
-			s.env[in] = e.get(s, in.X)
+			s.env[in] = e.wrapNative(in.Type(), token.MUL, e.get(s, in.X))
 		case *ssa.Index:
 			idx := e.get(s, in.Index).(IntV).t
 			bs := e.get(s, in.X).(BytesV).b
@@ -1182,23 +1182,29 @@ func (e *Engine) execBlock(fn *ssa.Function, s *St) ([]succ, []Out) {
 	panic("fell off block")
 }
 
-// wrap applies Go's fixed-width unsigned wrap-around in native-Go mode (packages outside contracts/).
-func (e *Engine) wrap(fn *ssa.Function, t types.Type, v Value) Value {
+// wrapNative applies Go's fixed-width unsigned wrap-around in native-Go mode (package deploy). Operands are
+// in range, so one correction step suffices for + and -; products and conversions are reduced modulo 2^w.
+func (e *Engine) wrapNative(t types.Type, op token.Token, v Value) Value {
 	iv, ok := v.(IntV)
-	if !ok || fn.Pkg == nil || strings.Contains(fn.Pkg.Pkg.Path(), "/contracts/") {
+	if !ok || !e.nativeMode || iv.t.isC() {
 		return v
 	}
 	b, ok := t.Underlying().(*types.Basic)
 	if !ok || b.Info()&types.IsUnsigned == 0 {
 		return v
 	}
-	bits := map[types.BasicKind]uint{types.Uint8: 8, types.Uint16: 16, types.Uint32: 32, types.Uint64: 64, types.Uint: 64}[b.Kind()]
-	if bits == 0 || iv.t.isC() {
+	bits := map[types.BasicKind]uint{types.Uint8: 8, types.Uint16: 16, types.Uint32: 32, types.Uint64: 64, types.Uint: 64, types.Uintptr: 64}[b.Kind()]
+	if bits == 0 {
 		return v
 	}
 	m := IB(new(big.Int).Lsh(big.NewInt(1), bits))
-	// operands are in range, so one correction step suffices for + and -
-	return IntV{Ite(Lt(iv.t, I(0)), Add(iv.t, m), Ite(Le(m, iv.t), Sub(iv.t, m), iv.t))}
+	switch op {
+	case token.ADD, token.SUB:
+		return IntV{Ite(Lt(iv.t, I(0)), Add(iv.t, m), Ite(Le(m, iv.t), Sub(iv.t, m), iv.t))}
+	case token.MUL:
+		return IntV{app("mod", 'I', iv.t, m)}
+	}
+	return v
 }
 
 func binop(op token.Token, x, y Value) Value {
